@@ -382,6 +382,7 @@ disown_unord(struct retr_blk *rb)
 
   if (ublk->complete) {
     free(ublk);
+    VERIF_FREE(VERIF_C_UNORD);
   }
   else {
     ublk->complete = true;
